@@ -510,7 +510,13 @@ namespace {
         std::uint16_t              instant         = 0;
         bool                       big_burst_of_callbacks = false;
         // evidence: delivered PDUs that produce an application callback, in order, per callback kind
-        std::deque< unsigned >     q_rejected, q_unknown;     // value: generation of the own procedure the PDU ends (0: none)
+        struct cb_pdu
+        {
+            unsigned gen;    // generation of the own procedure that was outstanding when the PDU was delivered (0: none)
+            bool     ends;   // ... and the PDU is an answer to it
+        };
+        std::deque< cb_pdu >       q_rejected, q_unknown;     // delivered PDUs that produce ll_rejected / ll_unknown, in order
+        unsigned                   version_delivered_gen = 0;
         unsigned                   own_gen = 0;               // counts the procedures the application started
         std::deque< int >          q_phy_now;                 // PHY update indications without change
         std::size_t                cb_seen = 0, tx_seen = 0;
@@ -543,6 +549,7 @@ namespace {
             q_rejected.clear();
             q_unknown.clear();
             q_phy_now.clear();
+            version_delivered_gen = 0;
             big_burst_of_callbacks = false;
         };
 
@@ -619,7 +626,7 @@ namespace {
                     unknown_seen = true;
                     const bool ends = own.kind >= 0 && own_started
                         && ( ( own.kind == APP_CPR && o.body[ 0 ] == 0x0F ) || ( own.kind == APP_PHY && o.body[ 0 ] == 0x16 ) || ( own.kind == APP_VER && o.body[ 0 ] == 0x0C ) );
-                    q_unknown.push_back( ends && own.kind != APP_VER ? own_gen : 0u );
+                    q_unknown.push_back( cb_pdu{ own.kind >= 0 ? own_gen : 0u, ends && own.kind != APP_VER } );
                     if ( ends )
                         own.maybe = true;
                 }
@@ -728,7 +735,8 @@ namespace {
                 if ( !ver_seen )
                 {
                     labels.insert( "pdu:version-ind-first" );
-                    ver_seen = true;
+                    ver_seen              = true;
+                    version_delivered_gen = own.kind >= 0 ? own_gen : 0u;
                     if ( o.body[ 0 ] <= 6 )
                         old_version_seen = true;
                     push( Expect::VERSION_IND );
@@ -752,7 +760,7 @@ namespace {
                 const bool ends = own.kind >= 0 && own_started
                     && ( op == 0x0D || ( own.kind == APP_CPR && o.body[ 0 ] == 0x0F ) || ( own.kind == APP_PHY && o.body[ 0 ] == 0x16 ) || ( own.kind == APP_VER && o.body[ 0 ] == 0x0C ) );
                 // certain only for the answers the specification defines
-                q_rejected.push_back( ends && ( own.kind != APP_VER ) && !( op == 0x0D && own.kind == APP_PHY ) ? own_gen : 0u );
+                q_rejected.push_back( cb_pdu{ own.kind >= 0 ? own_gen : 0u, ends && ( own.kind != APP_VER ) && !( op == 0x0D && own.kind == APP_PHY ) } );
                 if ( ends )
                     own.maybe = true;
             }
@@ -857,7 +865,9 @@ namespace {
                     reason = e.arg;
                     break;
                 case CB_VERSION:
-                    if ( own.kind == APP_VER && own.started && !own.certain )
+                    if ( own.kind >= 0 && version_delivered_gen != own_gen )
+                        own.unconstrained = true;   // delivered before the procedure was started, handled after
+                    else if ( own.kind == APP_VER && own.started && !own.certain )
                     {
                         own.certain   = true;
                         own.t_certain = now;
@@ -868,12 +878,20 @@ namespace {
                     auto& q = e.kind == CB_REJECTED ? q_rejected : q_unknown;
                     if ( !q.empty() )
                     {
-                        if ( q.front() != 0 && q.front() == own_gen && own.kind >= 0 && own.started && !own.certain )
+                        const cb_pdu f = q.front();
+                        q.pop_front();
+                        if ( own.kind >= 0 && f.gen == own_gen && f.ends && own.started && !own.certain )
                         {
                             own.certain   = true;
                             own.t_certain = now;
                         }
-                        q.pop_front();
+                        else if ( own.kind >= 0 && f.gen != own_gen )
+                        {
+                            // the PDU was delivered before this procedure was started, but handled after (transmit path was
+                            // blocked): for the peripheral it crosses the request
+                            own.unconstrained = true;
+                            labels.insert( "own:request-crossed-by-an-answer" );
+                        }
                     }
                 }
                 break;
